@@ -611,6 +611,8 @@ func (e *streamExec) step(s *SStep) {
 		e.readOnce(s.Chunks, s.EOFData, s.RF)
 	case "wfault":
 		e.writeOnce(s.WF)
+	case "trailing":
+		e.trailing(s)
 	case "every_offset":
 		hi := s.Hi
 		if hi < 0 || hi > len(e.ref) {
@@ -646,6 +648,58 @@ func (e *streamExec) step(s *SStep) {
 				e.writeOnce(WriteFault{Kind: kind, At: k})
 			}
 		}
+	}
+}
+
+// trailing: the artefact followed by more bytes (garbage, or a second copy of itself): the
+// streaming and the buffered API must agree on whether that is acceptable, and on the result.
+func (e *streamExec) trailing(s *SStep) {
+	o := e.o
+	extra := []byte{byte(s.Lo), byte(s.Lo >> 8), 0xf6}
+	if s.Lo%3 == 0 {
+		extra = append([]byte{}, e.ref...)
+	} else if s.Lo%3 == 1 {
+		extra = []byte{0x00}
+	}
+	data := append(append([]byte{}, e.ref...), extra...)
+	var bufRecs, strRecs []string
+	var bufErr, strErr error
+	entry := "trailing:" + e.p.Art + ":" + e.p.API
+	if e.isContainer() {
+		var rd container.Reader
+		if guard(o, entry, func() { rd, bufErr = e.readContainer(nil, data) }) {
+			return
+		}
+		if bufErr == nil {
+			bufRecs = readerRecs(rd)
+		}
+		if guard(o, entry, func() { rd, strErr = e.readContainer(newSimReader(data, s.Chunks, s.EOFData, ReadFault{}), nil) }) {
+			return
+		}
+		if strErr == nil {
+			strRecs = readerRecs(rd)
+		}
+	} else {
+		var tk token.Token
+		var c cid.Cid
+		if guard(o, entry, func() { tk, c, bufErr = e.decodeToken(nil, data) }) {
+			return
+		}
+		if bufErr == nil && !isNilTok(tk) {
+			bufRecs = []string{cidHex(c.Bytes()) + "=" + recOf(tk).Content()}
+		}
+		if guard(o, entry, func() { tk, c, strErr = e.decodeToken(newSimReader(data, s.Chunks, s.EOFData, ReadFault{}), nil) }) {
+			return
+		}
+		if strErr == nil && !isNilTok(tk) {
+			strRecs = []string{cidHex(c.Bytes()) + "=" + recOf(tk).Content()}
+		}
+	}
+	o.Eval("C18")
+	o.Sig("C18", e.p.Art, e.p.API, e.p.Typed, "trailing", s.Lo%3, bufErr == nil, strErr == nil)
+	o.Fault("trailing_data")
+	if (bufErr == nil) != (strErr == nil) || strings.Join(bufRecs, ";") != strings.Join(strRecs, ";") {
+		o.Violate("C18", "stream-buffer-disagree", fmt.Sprintf("%s %s followed by %d more bytes: buffered API error=%v, streaming API error=%v (results equal: %v)", e.p.Art, e.p.API, len(extra), bufErr != nil, strErr != nil, strings.Join(bufRecs, ";") == strings.Join(strRecs, ";")), map[string]string{"api": e.p.API, "artefact": e.p.Art})
 	}
 }
 
@@ -886,7 +940,18 @@ func genStream(r *Rand, g GenCfg) Plan {
 		p.API = Pick(r, tokenAPIs())
 		p.Typed = r.Chance(0.5)
 		p.Tokens = []TokSpec{genTokSpec(r, len(p.Cast), "t0", true)}
-		p.Steps = append(p.Steps, SStep{Op: "every_write", Hi: -1})
+		if r.Chance(0.08) {
+			// a token with a large value: single writes / reads beyond the usual buffer sizes
+			big := MetaSpec{Key: "blob", V: ptr(vBytes(r.Bytes(Pick(r, []int{4097, 6000, 9000}))))}
+			if p.Tokens[0].Kind == "dlg" {
+				p.Tokens[0].Dlg.Meta = append(p.Tokens[0].Dlg.Meta, big)
+			} else {
+				p.Tokens[0].Inv.Meta = append(p.Tokens[0].Inv.Meta, big)
+			}
+			p.Steps = append(p.Steps, SStep{Op: "every_write", Hi: 40}) // (the full enumeration would be thousands of large re-encodings)
+		} else {
+			p.Steps = append(p.Steps, SStep{Op: "every_write", Hi: -1})
+		}
 	}
 	// chunkings
 	p.Steps = append(p.Steps,
@@ -900,6 +965,9 @@ func genStream(r *Rand, g GenCfg) Plan {
 			ch = append(ch, Pick(r, []int{0, 1, 2, 3, 5, 8, 13, 64, 255, 1024, 4096}))
 		}
 		p.Steps = append(p.Steps, SStep{Op: "chunk", Chunks: ch, EOFData: r.Chance(0.5)})
+	}
+	for i := 0; i < 3; i++ {
+		p.Steps = append(p.Steps, SStep{Op: "trailing", Lo: r.Intn(3000), Chunks: []int{Pick(r, []int{1, 7, 64, 4096})}, EOFData: r.Chance(0.5)})
 	}
 	// every read fault at every offset, under one chunking
 	var ch []int
